@@ -40,6 +40,13 @@ Streams
                    (static reachability over the table: which bodies must run exactly once / never, 60 ⇔ a reachable import
                    without a file).
 
+  ident-alias      module names that are not plain paths: one file imported under its plain spelling 甲-乙 and under spellings
+                   that filepath.Join would clean into the same path (甲--乙, 甲-.-乙, 甲/乙, 丙-..-甲-乙, ./甲-乙, …), by the main file
+                   or through a go-between; `..-外` with a file 外.zn in the PARENT of the main file's directory; `甲\乙` beside a
+                   file 甲\乙.zn.  The repaired tree (fix 420e70b) answers 60 for each of these names; the unchanged tree ran the
+                   file once per spelling / read the outside file (the finding).  Judged three ways like every stream and by
+                   `alias_property` (the file table alone: no body twice, nothing outside the directory, 60).
+
 N ≤ 3 is exhaustive in both tiers (2 + 16 + 512 graphs); N = 4 (65 536 graphs) is sampled (500, biased to sparse graphs)
 in quick and exhaustive in thorough.
 """
@@ -51,12 +58,14 @@ RULE = ("one case = one file table run three ways; graphs: every digraph with se
         "(quick) / six times (thorough, plus 2 000 of N=4) through Go and once more through the model with reversed oracles; "
         "ident: 450 (quick) / 12 000 (thorough) tables of 2-4 modules whose NAMES are related spellings of one family (letter case, "
         "normalisation forms, blanks, dots, prefixes, same leaf in different directories, digits, near-separators, library names "
-        "without @), judged by the spec oracle and by static reachability over the generator's own file table. "
+        "without @), judged by the spec oracle and by static reachability over the generator's own file table; ident-alias: 40 (quick) "
+        "/ 600 (thorough) tables importing one file under its plain name and under names with an empty, `.`, `..` or separator-carrying "
+        "part (each must be error 60, no body may run twice, no file outside the main file's directory may be read). "
         "non-trivial = at least two modules' bodies ran or a module-level error (60/63/64/43/44/42) was reported after "
         "at least one import was processed")
 ASSUMPTIONS = [
-    "module names have plain segments (no empty segment, `.`, `..`, `/`): filepath.Join's cleaning is not modelled (the spellings "
-    "it maps to one file are the switched-off stream ident-alias, a reported defect of the unchanged tree)",
+    "the file table of a case lies below the main file's directory, except the `..`-keyed entries of the stream ident-alias (one level "
+    "up, inside the private temp dir); the model's pinned variant reads `..` relative to that directory, symbolic links do not occur",
     "the file system distinguishes file names by their exact code points (case-sensitive, no normalisation): true of the sandbox",
     "no import names the reserved internal module name 主模块 (it denotes the running main module, not 主模块.zn)",
     "defined names are not predefined global names; method bodies only display a marker and call/construct names",
@@ -65,7 +74,8 @@ ASSUMPTIONS = [
     "Go map iteration order is an arbitrary permutation (order oracles; exercised by repetitions)",
 ]
 PARTIAL = ("no property theorem is partial; the equality of the displayed trace between model and spec oracle is checked by "
-           "execution on every generated case, not proved (the theorems cover resolution, once-only loading, "
+           "execution on every generated case, not proved (the theorems cover resolution incl. injectivity of name ↦ path and rejection of names that are not plain paths, "
+           "once-only loading per FILE, "
            "import-before-body, export sets incl. libraries, read-only imports, missing module/library, DFS "
            "soundness/completeness/order-independence/termination, loader termination, cycle ⇔ 63, and name resolution "
            "of an imported method in its home module)")
@@ -466,13 +476,20 @@ def py_resolve(name):
     return tuple(segs[:-1] + [segs[-1] + '.zn'])
 
 
+def py_valid(name):
+    """every part of the name is a plain file name: not empty, not `.` / `..`, no path separator — any other name denotes no module"""
+    return all(seg not in ('', '.', '..') and '/' not in seg and '\\' not in seg for seg in name.split('-'))
+
+
 def plain_name(name):
-    """inside the fragment: plain segments (filepath.Join cleans empty / `.` / `..` segments), no quote, back-tick, slash or
-    line break, not the reserved 主模块, every path component short enough for the file system"""
+    """a name that can have a file: plain parts (`py_valid`; others are the stream ident-alias), no quote, back-tick or line break,
+    not the reserved 主模块, every path component short enough for the file system"""
     if not name or name == '主模块' or name.startswith('@') or any(c in FORBIDDEN_NAME_CHARS for c in name):
         return False
+    if not py_valid(name):
+        return False
     for seg in name.split('-'):
-        if seg in ('', '.', '..') or len((seg + '.zn').encode()) > 200:
+        if len((seg + '.zn').encode()) > 200:
             return False
     return True
 
@@ -571,30 +588,37 @@ def name_family(rng):
     return fam, out
 
 
-# Spellings that filepath.Join cleans into the path of ANOTHER spelling (an empty, `.` or `..` segment, a slash inside a segment).
-# The unchanged tree registers them as different modules although they denote one file, so the body of that file runs once per
-# spelling (confirmed on the real code: 导入“甲-乙” then 导入“甲--乙” displays the markers of 甲/乙.zn twice; the same with “甲-.-乙”,
-# “甲/乙”, “丙-..-甲-乙”, “./甲-乙”), and “..-外” loads a file OUTSIDE the main file's directory.  This contradicts "each module body
-# runs at most once per program run" / "resolves to A/B/C.zn under the main file's directory": a genuine defect of DemoHn/Zn, reported
-# and not repaired.  The class is kept out of the random stream so that the check stays green; set the switch (or the environment
-# variable VERIF_C15_JOIN_CLEANED_SPELLINGS=1) to run the stream `ident-alias`, which is judged by the file table alone (the Lean
-# loader model and the spec oracle assume plain segments, see ASSUMPTIONS).
-IDENT_JOIN_CLEANED_SPELLINGS = False
+# Names that are not plain paths: a part that is empty, `.`, `..` or carries a separator.  filepath.Join cleans such a name into the
+# path of ANOTHER spelling, and the unchanged tree registered every spelling as a module of its own although they denote one file, so
+# the body of that file ran once per spelling (导入“甲-乙” then 导入“甲--乙” displayed the markers of 甲/乙.zn twice; the same with
+# “甲-.-乙”, “甲/乙”, “丙-..-甲-乙”, “./甲-乙”), and “..-外” loaded a file OUTSIDE the main file's directory: a genuine defect of
+# DemoHn/Zn (KF fixed: 420e70b).  The repaired tree answers 60 (module not found) for every such name before a path is built; the
+# loader model (`Variant.repaired`) and the spec oracle (`plainName`) say the same, the model's `Variant.pinned` (op modgraph-pinned,
+# shown by --replay) describes the old behaviour.  VERIF_C15_JOIN_CLEANED_SPELLINGS=0 switches the stream off.
+IDENT_JOIN_CLEANED_SPELLINGS = True
+ALIAS_DEEP = ['甲--乙', '甲-.-乙', '甲/乙', '丙-..-甲-乙', './甲-乙', '.-甲-乙', '甲//乙', '甲-丙/../乙', '-甲-乙', '甲-./乙', '甲-丙-..-乙',
+              '../根/甲-乙', '..-根-甲-乙']
+ALIAS_FLAT = ['./甲', '.-甲', '-甲', '丙-..-甲', '丙/../甲', '甲-..-甲', '/甲', '../根/甲', '..-根-甲']
 
 
 def alias_case(rng):
-    """(case, file-index of every import spelling or 'outside'): one file F imported under its plain spelling and under 1–2
-    spellings that the path cleaning maps to F too, by the main file or through a go-between; or a `..` spelling that leaves the
-    main file's directory"""
-    if rng.random() < 0.15:
-        main = {'path': ['主.zn'], 'imports': [('..-外', ['无名'])], 'items': [('m', 100), ('m', 101)]}
-        out = {'path': ['外.zn'], 'imports': [], 'items': [('m', 110), ('m', 111)]}
-        return {'main': ['根', '主.zn'], 'files': [dict(main, path=['根', '主.zn']), out], 'kind': 'alias', 'outside': True}
+    """one file F imported under its plain spelling and under 1–2 names that the path cleaning would map to F too, by the main file
+    or through a go-between; or `..-外` with a file one level above the main file's directory; or `甲\\乙` beside a file of that name.
+    The main file lives in 根/ (prefix), a file key starting with `..` is a file beside 根/."""
+    x = rng.random()
+    if x < 0.15:
+        main = {'path': ['主.zn'], 'imports': [(rng.choice(['..-外', '../外', '..-根-..-外', '甲-..-..-外']), ['无名'])],
+                'items': [('m', 100), ('m', 101)]}
+        out = {'path': ['..', '外.zn'], 'imports': [], 'items': [('m', 110), ('m', 111)]}
+        return {'main': ['主.zn'], 'files': [main, out], 'kind': 'alias', 'outside': True, 'prefix': ['根']}
+    if x < 0.25:
+        nm = rng.choice(['甲\\乙', '目-甲\\乙', '甲\\'])
+        main = {'path': ['主.zn'], 'imports': [(nm, ['无名'])], 'items': [('m', 100), ('m', 101)]}
+        tgt = {'path': list(py_resolve(nm)), 'imports': [], 'items': [('m', 110), ('m', 111)]}
+        return {'main': ['主.zn'], 'files': [main, tgt], 'kind': 'alias', 'outside': False, 'backslash': True, 'prefix': ['根']}
     deep = rng.random() < 0.7
     base = '甲-乙' if deep else '甲'
-    al = (['甲--乙', '甲-.-乙', '甲/乙', '丙-..-甲-乙', './甲-乙', '.-甲-乙', '甲//乙', '甲-丙/../乙', '-甲-乙'] if deep else
-          ['./甲', '.-甲', '-甲', '丙-..-甲', '丙/../甲', '甲-..-甲'])
-    spell = [base] + rng.sample(al, rng.choice([1, 1, 2]))
+    spell = [base] + rng.sample(ALIAS_DEEP if deep else ALIAS_FLAT, rng.choice([1, 1, 2]))
     rng.shuffle(spell)
     target = {'path': ['甲', '乙.zn'] if deep else ['甲.zn'], 'imports': [],
               'items': [('m', 110), ('d', '甲法', 'm', 112, []), ('m', 111)]}
@@ -606,24 +630,22 @@ def alias_case(rng):
                  {'path': ['旁.zn'], 'imports': others, 'items': [('m', 120), ('m', 121)]}, target]
     else:
         files = [{'path': ['主.zn'], 'imports': first + others, 'items': [('m', 100), ('u', ('c', '甲法')), ('m', 101)]}, target]
-    return {'main': ['主.zn'], 'files': files, 'kind': 'alias', 'outside': False}
+    return {'main': ['主.zn'], 'files': files, 'kind': 'alias', 'outside': False, 'prefix': ['根']}
 
 
-def alias_stream(ctx, cases):
-    go = [norm_go(x) for x in run_go_retry(ctx, [go_line(c) for c in cases])]
-    for c, g in zip(cases, go):
-        ctx.evaluations += 1
-        st, marks = g
-        why = None
-        if marks is None:
-            why = 'no answer: ' + st
-        elif c['outside'] and 110 in marks:
-            why = 'a file outside the main file\'s directory was loaded: %s %s' % (st, marks)
-        elif marks.count(110) > 1:
-            why = 'the body of one file ran %d times (imported under spellings that denote the same path): %s' % (marks.count(110), marks)
-        if why:
-            ctx.violation('ident-alias', case_key(c), str(g), why)
-    ctx.streams.append({'stream': 'ident-alias', 'cases': len(cases)})
+def alias_property(case, g):
+    """the file table as the judge: the body of one file never runs twice, a file outside the main file's directory is never read, and
+    a name with a part that is not a plain file name denotes no module (every alias case imports one from a reachable file: 60)"""
+    st, marks = g
+    if marks is None:
+        return 'no answer: ' + st
+    if case.get('outside') and 110 in marks:
+        return 'a file outside the main file\'s directory was loaded: %s %s' % (st, marks)
+    if marks.count(110) > 1:
+        return 'the body of one file ran %d times (imported under spellings that denote the same path): %s' % (marks.count(110), marks)
+    if st != 'err 60':
+        return 'an import of a name with a part that is not a plain file name did not end in module-not-found: %s %s' % (st, marks)
+    return None
 
 
 def ident_case(rng, ctx):
@@ -784,6 +806,9 @@ def ident_property(case, g):
             q = py_resolve(name)
             if q is None:
                 continue
+            if not py_valid(name):
+                dangling = True                                         # such a name denotes no module, whatever files exist
+                continue
             if q == main:
                 again = True                                            # the main file imported by name runs a second time
             if q in table:
@@ -867,6 +892,23 @@ SEEDS = [
             ('d', '甲法', 'm', 3, [('c', '共')]), ('d', '甲辅', 'm', 4, []), ('d', '共', 'm', 115, [('c', '甲辅')]),
             ('m', 6), ('u', ('c', '共'))]},
         {'path': ['乙.zn'], 'imports': [], 'items': [('d', '共', 'm', 125, []), ('m', 7)]}]},
+    # names that are not plain paths (the witnesses of the finding fixed by 420e70b): 甲-乙 then 甲--乙 — 60, the body of 甲/乙.zn once
+    {'main': ['主.zn'], 'files': [
+        {'path': ['主.zn'], 'imports': [('甲-乙', []), ('甲--乙', [])], 'items': [('m', 1)]},
+        {'path': ['甲', '乙.zn'], 'imports': [], 'items': [('m', 2)]}]},
+    # … through a go-between, `.` and `/` spellings
+    {'main': ['主.zn'], 'files': [
+        {'path': ['主.zn'], 'imports': [('甲-乙', []), ('旁', [])], 'items': [('m', 1)]},
+        {'path': ['旁.zn'], 'imports': [('甲/乙', ['无名']), ('甲-.-乙', ['无名'])], 'items': [('m', 3)]},
+        {'path': ['甲', '乙.zn'], 'imports': [], 'items': [('m', 2)]}]},
+    # … `..` leaves the main file's directory (the main file lives in 根/, 外.zn beside 根/)
+    {'main': ['主.zn'], 'prefix': ['根'], 'files': [
+        {'path': ['主.zn'], 'imports': [('..-外', [])], 'items': [('m', 1)]},
+        {'path': ['..', '外.zn'], 'imports': [], 'items': [('m', 2)]}]},
+    # … a backslash in a part, although a file of that name exists
+    {'main': ['主.zn'], 'files': [
+        {'path': ['主.zn'], 'imports': [('甲\\乙', [])], 'items': [('m', 1)]},
+        {'path': ['甲\\乙.zn'], 'imports': [], 'items': [('m', 2)]}]},
     # long cycle through a nested directory
     {'main': ['主.zn'], 'files': [
         {'path': ['主.zn'], 'imports': [('甲', [])], 'items': [('m', 1)]},
@@ -1096,8 +1138,22 @@ def run(ctx):
     compare(ctx, 'shadow', [shadow_case(rng.choice([2, 3, 3, 4, 4]), rng, ctx) for _ in range(ctx.n(300, 6000))])
     ctx.count('graphs_enumerated_n4', len(codes4))
     compare(ctx, 'ident', [ident_case(rng, ctx) for _ in range(ctx.n(450, 12000))], prop=ident_property)
-    if IDENT_JOIN_CLEANED_SPELLINGS or os.environ.get('VERIF_C15_JOIN_CLEANED_SPELLINGS') == '1':
-        alias_stream(ctx, [alias_case(rng) for _ in range(ctx.n(60, 600))])
+    if IDENT_JOIN_CLEANED_SPELLINGS and os.environ.get('VERIF_C15_JOIN_CLEANED_SPELLINGS') != '0':
+        alias = [alias_case(rng) for _ in range(ctx.n(40, 600))]
+        for c in alias:
+            ctx.count('alias_outside' if c.get('outside') else 'alias_backslash' if c.get('backslash') else 'alias_cleaned_spelling')
+        compare(ctx, 'ident-alias', alias, prop=alias_property)
+        if os.environ.get('VERIF_C15_PINNED_MODEL') == '1':
+            # only meaningful with ZN_REPO on a tree WITHOUT fix 420e70b: the model's `Variant.pinned` against that code (spellings that
+            # come back into the main file's directory through its own name are outside that variant)
+            sub = [c for c in alias if not any('根' in nm for f in c['files'] for nm, _ in f['imports'])]
+            go = [norm_go(x) for x in run_go_retry(ctx, [go_line(c) for c in sub])]
+            pm = [norm_lean(x) for x in ctx.run_lean([lean_line(c, 'modgraph-pinned') for c in sub])]
+            for c, g, m in zip(sub, go, pm):
+                ctx.evaluations += 1
+                if g != m:
+                    ctx.disagreement('ident-alias-pinned', case_key(c), str(g), str(m))
+            ctx.streams.append({'stream': 'ident-alias-pinned', 'cases': len(sub)})
     ctx.exhaustive = True
     for c in plain_small + plain4:
         ctx.count('plain_cycle_reachable' if reach_cycle(c['adj']) else 'plain_acyclic')
@@ -1115,3 +1171,4 @@ def replay(ctx, data):
     print('go   :', norm_go(ctx.run_go([go_line(case)])[0]))
     print('model:', norm_lean(ctx.run_lean([lean_line(case)])[0]))
     print('spec :', norm_lean(ctx.run_lean([lean_line(case, 'spec:modgraph')])[0]))
+    print('model of the finder before fix 420e70b (names joined and cleaned):', norm_lean(ctx.run_lean([lean_line(case, 'modgraph-pinned')])[0]))
